@@ -1127,3 +1127,107 @@ pub fn gen_desc(stream: &[u32], p: &Profile, stratum: Option<usize>, big: bool) 
     }
     g.finish(big, true)
 }
+
+// ------------------------------------------------------------------ syntactic-only generator
+
+/// Arbitrary model AST: syntactically valid, semantically unconstrained (duplicate and undeclared
+/// identifiers, widths 0..70 and huge, misplaced fields).  Used where the property quantifies
+/// over all parsed files (C10, C12), not only over well-formed ones.
+pub fn gen_absurd(stream: &[u32], big: bool) -> Desc {
+    let mut s = Src::new(stream);
+    let ids = ["A", "B", "C", "Foo", "Bar", "enumx", "packet_", "test1", "Group9", "x", "y", "payload", "size", "type", "if1", "le", "T1", "_a"];
+    let fids = ["a", "b", "c", "x", "y", "len", "count", "enumy", "structz", "f_1", "big_endian", "A", "T1"];
+    let id = |s: &mut Src, pool: &[&str]| -> String {
+        let p = *s.pick(pool);
+        if p.starts_with('_') {
+            "u".to_string() + p
+        } else {
+            p.to_string()
+        }
+    };
+    let int = |s: &mut Src| -> u64 {
+        match s.below(8) {
+            0 => 0,
+            1 => 1,
+            2 => 8,
+            3 => s.range(0, 70),
+            4 => s.range(0, 1 << 20),
+            5 => u64::MAX,
+            6 => 1u64 << s.below(64),
+            _ => s.range(0, u64::MAX),
+        }
+    };
+    let width = |s: &mut Src| -> u32 {
+        match s.below(6) {
+            0 => 8,
+            1 => 16,
+            2 => s.below(9) as u32,
+            3 => s.below(70) as u32,
+            4 => 64,
+            _ => s.range(0, u32::MAX as u64) as u32,
+        }
+    };
+    let cons = |s: &mut Src| -> Vec<Cons> {
+        let n = s.below(3);
+        (0..n).map(|_| Cons { id: id(s, &fids), v: if s.bool() { Cv::Int(int(s)) } else { Cv::Tag(id(s, &ids)) } }).collect()
+    };
+    let fields = |s: &mut Src| -> Vec<Field> {
+        let n = s.below(6);
+        (0..n)
+            .map(|_| {
+                let d = match s.below(15) {
+                    0 => FieldDesc::Scalar { id: id(s, &fids), w: width(s) },
+                    1 => FieldDesc::Typedef { id: id(s, &fids), ty: id(s, &ids) },
+                    2 => FieldDesc::Array { id: id(s, &fids), elem: if s.bool() { Elem::Bits(width(s)) } else { Elem::Ty(id(s, &ids)) }, count: if s.bool() { Some(int(s)) } else { None }, modifier: None },
+                    3 => FieldDesc::Array { id: id(s, &fids), elem: Elem::Bits(8), count: None, modifier: Some(int(s) % 1000) },
+                    4 => FieldDesc::Size { target: if s.below(3) == 0 { "_payload_".into() } else if s.below(3) == 0 { "_body_".into() } else { id(s, &fids) }, w: width(s) },
+                    5 => FieldDesc::Count { target: id(s, &fids), w: width(s) },
+                    6 => FieldDesc::ElemSize { target: id(s, &fids), w: width(s) },
+                    7 => FieldDesc::Payload { modifier: if s.bool() { Some(int(s) % 100) } else { None } },
+                    8 => FieldDesc::Body,
+                    9 => FieldDesc::FixedScalar { w: width(s), v: int(s) },
+                    10 => FieldDesc::FixedEnum { ty: id(s, &ids), tag: id(s, &ids) },
+                    11 => FieldDesc::Reserved { w: width(s) },
+                    12 => FieldDesc::Padding { n: int(s) },
+                    13 => FieldDesc::Group { id: id(s, &ids), cons: cons(s) },
+                    _ => FieldDesc::Checksum { id: id(s, &fids) },
+                };
+                let cond = if s.below(5) == 0 { Some((id(s, &fids), int(s) % 3)) } else { None };
+                Field { d, cond }
+            })
+            .collect()
+    };
+    let n = s.below(6);
+    let mut decls = vec![];
+    for _ in 0..n {
+        let did = id(&mut s, &ids);
+        let d = match s.below(7) {
+            0 => {
+                let nt = 1 + s.below(4);
+                let tags = (0..nt)
+                    .map(|_| match s.below(4) {
+                        0 | 1 => Tag::Value { id: id(&mut s, &ids), v: int(&mut s) },
+                        2 => {
+                            let ns = s.below(3);
+                            Tag::Range { id: id(&mut s, &ids), lo: int(&mut s), hi: int(&mut s), tags: (0..ns).map(|_| (id(&mut s, &ids), int(&mut s))).collect() }
+                        }
+                        _ => Tag::Other { id: id(&mut s, &ids) },
+                    })
+                    .collect();
+                Decl::Enum { id: did, width: width(&mut s), tags }
+            }
+            1 => Decl::Custom { id: did, width: if s.bool() { Some(width(&mut s)) } else { None } },
+            2 => Decl::Checksum { id: did, width: width(&mut s), function: "crc".into() },
+            3 => {
+                let mut f = fields(&mut s);
+                if f.is_empty() {
+                    f.push(Field::new(FieldDesc::Reserved { w: 8 }));
+                }
+                Decl::Group { id: did, fields: f }
+            }
+            _ => Decl::Record { id: did, packet: s.bool(), parent: if s.below(3) == 0 { Some(id(&mut s, &ids)) } else { None }, cons: cons(&mut s), fields: fields(&mut s) },
+        };
+        decls.push(d);
+    }
+    Desc { big, decls }
+}
